@@ -53,7 +53,12 @@ def parse_syn_type(p):
     if x[0] == "g" and x[1] == "Bracket":
         p.eat(); q = P(x[2].t); el = parse_syn_type(q); q.expect_p(";"); ln = q.t[q.i:]
         return En("Type", 0, "Array", [Agg("TypeArray", [UNIT, mk_box(el), UNIT, SynV("Expr", list(ln))])])
-    if x[0] == "p" and x[1] in "&*":
+    if x[0] == "p" and x[1] == "&":
+        p.eat(); lt = none(); mut = none()
+        if p.is_p("'"): p.eat(); lt = some(SynV("Lifetime", [("p", "'", True), ("i", p.expect_i())]))
+        if p.is_i("mut"): p.eat(); mut = some(UNIT)
+        return En("Type", 10, "Reference", [Agg("TypeReference", [UNIT, lt, mut, mk_box(parse_syn_type(p))])])
+    if x[0] == "p" and x[1] == "*":
         rest = p.t[p.i:]; p.i = len(p.t)
         return En("Type", 14, "Verbatim", [TS(list(rest))])
     return En("Type", 8, "Path", [Agg("TypePath", [none(), parse_path(p)])])
@@ -72,6 +77,12 @@ def print_syn(eng, x, ts):
             ts.t.append(("p", "<", False)); print_punct(eng, x.f[2], ts); ts.t.append(("p", ">", False)); return True
         if x.tag == "TypeTuple":
             inner = TS(); print_punct(eng, x.f[1], inner); ts.t.append(("g", "Parenthesis", inner)); return True
+        if x.tag == "TypeReference":
+            ts.t.append(("p", "&", False))
+            if x.f[1].idx == 1: ts.t += x.f[1].f[0].toks
+            if x.f[2].idx == 1: ts.t.append(("i", "mut"))
+            if not print_syn(eng, deref(x.f[3]), ts): to_tokens_orig(eng, x.f[3], ts)
+            return True
         if x.tag == "TypeArray":
             inner = TS(); print_syn(eng, deref(x.f[1]), inner); inner.t.append(("p", ";", False)); inner.t += x.f[3].toks
             ts.t.append(("g", "Bracket", inner)); return True
